@@ -167,10 +167,13 @@ def wait(ctx, role, tmo, exits, eintr):
             ctx.prove(ctx.implies(ctx.eq(timeout, 0), len(sl) == 0), "timeout0-never-sleeps")
 
 
-@harness("C15.wait_procs", quick=[dict(n=1, tmo="sym", tmax="15/100"), dict(n=2, tmo="sym", tmax="1/1000"), dict(n=2, tmo="zero", tmax="0")],
+@harness("C15.wait_procs", quick=[dict(n=1, tmo="sym", tmax="15/100"), dict(n=2, tmo="sym", tmax="1/1000"), dict(n=2, tmo="zero", tmax="0"), dict(n=2, tmo="sym", tmax="1/10", never_exit=True),
+                                   dict(n=3, tmo="sym", tmax="1/10", never_exit=True)],
          thorough=[dict(n=1, tmo="sym", tmax="15/100"), dict(n=2, tmo="sym", tmax="2/100"), dict(n=3, tmo="sym", tmax="1/2000"), dict(n=2, tmo="zero", tmax="0"), dict(n=3, tmo="zero", tmax="0"),
                    dict(n=2, tmo="none", tmax="1/100")], cap=80)
-def wait_procs(ctx, n, tmo, tmax):
+def wait_procs(ctx, n, tmo, tmax, never_exit=False):
+    """never_exit: all processes outlive the call (the scenario in which the deadline matters most), which keeps the number of
+    paths small enough for timeouts of 0.1 s with 2-3 processes"""
     tmax = F(tmax)
     k = simk.Kernel(ctx)
     simk.system_files(k)
@@ -179,7 +182,7 @@ def wait_procs(ctx, n, tmo, tmax):
         pid = 70 + i
         simk.full_process(k, pid)
         role = ctx.choice(f"role{i}", ["child", "nonchild"])
-        exits = True if tmo == "none" else ctx.flag(f"exits{i}")
+        exits = False if never_exit else (True if tmo == "none" else ctx.flag(f"exits{i}"))
         worlds.append(World(ctx, k, pid, str(i), role, exits, emax=2 * tmax if tmax else F(2, 10)))
     timeout = {"sym": lambda: ctx.real("timeout", 0, tmax), "zero": lambda: 0, "none": lambda: None}[tmo]()
     patches, pid_exists = install_world(k, worlds)
